@@ -51,6 +51,12 @@ def regenerate(cfg, sizes):
     # ... and of the decoder glue (builder_callbacks.c, cbor_load)
     write_if_changed(os.path.join(GEN, "Gen_effects_load.v"),
                      effects.emit(efns, enums, cfg.get("conf"), "load", effects.load_enums(cfg)))
+    # ... and of the serializer (serialization.c)
+    write_if_changed(os.path.join(GEN, "Gen_effects_ser.v"),
+                     effects.emit(efns, enums, cfg.get("conf"), "ser", effects.load_enums(cfg)))
+    # ... and of the release path of the reference counting (cbor_decref)
+    write_if_changed(os.path.join(GEN, "Gen_effects_ref.v"),
+                     effects.emit(efns, enums, cfg.get("conf"), "ref", effects.load_enums(cfg)))
     report["effect_plans"] = sum(1 for _, t in efns if t is not None)
     # inventories
     inv, notes = inventory.scan(cfg)
